@@ -14,11 +14,23 @@ class C25(Prop):
     id = "C25"
     rule = (
         "cases = operation sequences over one KeyedLock: acquire(key in a,b,c) spawns a task that enters the critical section and waits "
-        "to be released; release(task); cancel(task) while it is queued or while it holds; yield (let the loop run 1-3 iterations). "
-        "A reference model (holder + FIFO queue per key) is compared after every operation; at the end everything is released and the "
-        "lock's internal tables must be empty. Non-trivial = a queued waiter was cancelled while the key was held."
+        "to be released; release(task); cancel(task) while it is queued or while it holds; yield (let the loop run 1-3 iterations); "
+        "leave(task, mask, how): the task is released (how=rel) or cancelled (how=cancel) and, when it has left its critical section, "
+        "cancels in the same task step (no await in between) the waiters of its key selected by the bit mask over the FIFO queue "
+        "(15 = all of them, bit 0 = the waiter that was just woken by the hand-off and has not run yet); rel1(task, mask): release, let the "
+        "loop run exactly one iteration, then the driver (a task ahead of the woken waiter in the ready queue) cancels the waiters selected "
+        "by mask if the key has no holder, and no settling follows, so the next operation also lands in the hand-off window between the "
+        "holder's exit and the woken waiter's first step. "
+        "A reference model (holder + FIFO queue per key) is compared after every settled operation, and after every settled operation "
+        "every key all of whose holders and waiters are gone (finished or cancelled) must have no entry in the lock's internal tables; "
+        "at the end everything is released and, after all tasks have finished, the tables must be empty. "
+        "Non-trivial = a queued waiter was cancelled while the key was held, or a waiter was cancelled in the hand-off window."
     )
-    assumptions = ["single event loop; cancellation is delivered with Task.cancel() at the task's current await"]
+    assumptions = [
+        "single event loop; cancellation is delivered with Task.cancel() at the task's current await",
+        "a task's exit from `async with lock(key)` does not suspend (the main lock is never contended across an await), so code placed "
+        "right after the block runs before the woken waiter's task is stepped",
+    ]
     budgets = {"quick": 1500, "thorough": 10000}
     wall = {"quick": 60.0, "thorough": 600.0}
 
@@ -35,34 +47,108 @@ class C25(Prop):
             st.tuples(st.just("rel"), st.integers(0, 30)),
             st.tuples(st.just("cancel"), st.integers(0, 30)),
             st.tuples(st.just("yield"), st.integers(1, 3)),
+            st.tuples(
+                st.just("leave"),
+                st.integers(0, 30),
+                st.one_of(st.just(15), st.integers(0, 15)),
+                st.sampled_from(["rel", "rel", "cancel"]),
+            ),
+            st.tuples(st.just("rel1"), st.integers(0, 30), st.sampled_from([0, 0, 1, 15]) | st.integers(0, 15)),
+            st.tuples(st.just("acq"), st.sampled_from(["a", "a", "b", "c"])),
         )
         return st.lists(op.map(list), min_size=1, max_size=30)
 
     def run_case(self, case):
         r = CaseResult()
         KL = self.KL
-        stats = {"cancel_queued_while_held": False, "max_queue": 0}
+        stats = {
+            "cancel_queued_while_held": False,
+            "max_queue": 0,
+            "handoff_cancel": False,  # some waiter cancelled by the leaving holder, in the holder's own step
+            "handoff_cancel_woken": False,  # ... including the waiter the hand-off had just woken
+            "handoff_cancel_all": False,  # ... every remaining waiter: a cancelled, already-woken waiter is the last reference
+            "handoff_cancel_woken_next_enters": False,  # woken one cancelled, a later waiter left alone
+            "leaver_was_cancelled": False,  # the leaving holder that cancels waiters was itself cancelled
+            "driver_cancel_in_handoff": False,  # driver cancelled a waiter between holder exit and the woken waiter's step
+            "driver_cancel_all_in_handoff": False,  # ... every remaining waiter of the key
+            "midrun_key_idle": False,  # a key became idle (all its tasks gone) before the end: mid-run table inspection applied
+        }
 
         async def main():
             lock = KL()
-            tasks = []  # dicts: key, task, release(event), state
+            tasks = []  # dicts: key, task, release(event), state, post, cancel_req, entered
             inside = {}  # key -> list of task ids currently inside
 
+            def cancel_task(t):
+                t["cancel_req"] = True
+                t["task"].cancel()
+
+            def queued(key):
+                # FIFO queue of the key = creation order of the tasks still waiting (every acquirer passes the main lock
+                # without suspending, so it parks on the per-key lock in creation order)
+                return [t for t in tasks if t["key"] == key and t["state"] == "new" and not t["task"].done() and not t["cancel_req"]]
+
+            def post_cancel(me, key, mask):
+                # runs in the leaving holder's task right after its `async with` block: the per-key lock is released and the
+                # first waiter woken, but no other task has been stepped since
+                q = queued(key)
+                if not q:
+                    return
+                hit = [bool((mask >> (n % 4)) & 1) for n in range(len(q))]
+                for t, h in zip(q, hit):
+                    if h:
+                        cancel_task(t)
+                if any(hit):
+                    stats["handoff_cancel"] = True
+                    if me["cancel_req"]:
+                        stats["leaver_was_cancelled"] = True
+                if hit[0]:
+                    stats["handoff_cancel_woken"] = True
+                    if all(hit):
+                        stats["handoff_cancel_all"] = True
+                    else:
+                        stats["handoff_cancel_woken_next_enters"] = True
+
             async def worker(i, key, rel):
-                async with lock(key):
-                    inside.setdefault(key, []).append(i)
-                    if len(inside[key]) > 1:
-                        r.v("two_holders_for_one_key", key=key)
-                    tasks[i]["state"] = "in"
-                    try:
-                        await rel.wait()
-                    finally:
-                        inside[key].remove(i)
-                tasks[i]["state"] = "done"
+                me = tasks[i]
+                try:
+                    async with lock(key):
+                        me["entered"] = True
+                        inside.setdefault(key, []).append(i)
+                        if len(inside[key]) > 1:
+                            r.v("two_holders_for_one_key", key=key)
+                        me["state"] = "in"
+                        try:
+                            await rel.wait()
+                        finally:
+                            inside[key].remove(i)
+                finally:
+                    if me["entered"]:
+                        me["state"] = "left"
+                        if me["post"] is not None:
+                            post_cancel(me, key, me["post"])
+                me["state"] = "done"
 
             async def settle():
                 for _ in range(12):
                     await asyncio.sleep(0)
+
+            def tables_check(where, final=False):
+                # "once all holders and waiters are gone (including cancelled ones) no lock state remains", per key
+                for key in ("a", "b", "c"):
+                    used = [t for t in tasks if t["key"] == key]
+                    if not used or any(not t["task"].done() for t in used):
+                        continue
+                    if not final:
+                        stats["midrun_key_idle"] = True
+                    if key in lock._locks or key in lock._refs:
+                        r.v(
+                            "lock_state_left_behind",
+                            where=where,
+                            key=key,
+                            locks=sorted(lock._locks),
+                            refs=dict(lock._refs),
+                        )
 
             def model_check(where):
                 for key in ("a", "b", "c"):
@@ -74,21 +160,50 @@ class C25(Prop):
                         r.v("two_holders_for_one_key", key=key)
                     if not holders and waiting:
                         r.v("waiter_not_admitted", key=key, where=where, waiting=len(waiting))
+                tables_check(where)
+
+            def do_cancel(t):
+                if t["task"].done():
+                    return
+                held = any(o["state"] == "in" and o["key"] == t["key"] and not o["task"].done() for o in tasks)
+                if t["state"] == "new" and not t["cancel_req"]:
+                    if held:
+                        stats["cancel_queued_while_held"] = True
+                    else:
+                        # only reachable right after rel1: the holder has left, the woken waiter has not been stepped yet
+                        stats["driver_cancel_in_handoff"] = True
+                cancel_task(t)
 
             for op in case:
                 if op[0] == "acq":
                     rel = asyncio.Event()
-                    d = {"key": op[1], "release": rel, "state": "new"}
+                    d = {"key": op[1], "release": rel, "state": "new", "post": None, "cancel_req": False, "entered": False}
                     tasks.append(d)
                     d["task"] = asyncio.create_task(worker(len(tasks) - 1, op[1], rel))
                 elif op[0] == "rel" and tasks:
                     tasks[op[1] % len(tasks)]["release"].set()
                 elif op[0] == "cancel" and tasks:
+                    do_cancel(tasks[op[1] % len(tasks)])
+                elif op[0] == "leave" and tasks:
                     t = tasks[op[1] % len(tasks)]
                     if not t["task"].done():
-                        if t["state"] == "new" and any(o["state"] == "in" and o["key"] == t["key"] and not o["task"].done() for o in tasks):
-                            stats["cancel_queued_while_held"] = True
-                        t["task"].cancel()
+                        t["post"] = op[2]
+                        if op[3] == "cancel":
+                            do_cancel(t)
+                        else:
+                            t["release"].set()
+                elif op[0] == "rel1" and tasks:
+                    tasks[op[1] % len(tasks)]["release"].set()
+                    await asyncio.sleep(0)  # exactly one loop iteration: the holder leaves, the woken waiter is not stepped yet
+                    k = tasks[op[1] % len(tasks)]["key"]
+                    if op[2] and not any(o["state"] == "in" and o["key"] == k and not o["task"].done() for o in tasks):
+                        q = queued(k)
+                        for n, t in enumerate(q):
+                            if (op[2] >> (n % 4)) & 1:
+                                do_cancel(t)
+                        if q and not queued(k):
+                            stats["driver_cancel_all_in_handoff"] = True
+                    continue
                 elif op[0] == "yield":
                     for _ in range(op[1]):
                         await asyncio.sleep(0)
@@ -106,15 +221,29 @@ class C25(Prop):
                     r.v("waiter_never_entered", key=t["key"])
                     t["task"].cancel()
             await asyncio.gather(*[t["task"] for t in tasks], return_exceptions=True)
+            # everything has settled: every task (holder, waiter, cancelled or not) is finished
+            await settle()
+            tables_check("end", final=True)
             if lock._locks or lock._refs:
-                r.v("lock_state_left_behind", locks=sorted(lock._locks), refs=dict(lock._refs))
+                r.v("lock_state_left_behind", where="end", locks=sorted(lock._locks), refs=dict(lock._refs))
 
         boot.run_virtual(main)
-        r.nontrivial = stats["cancel_queued_while_held"]
+        r.nontrivial = stats["cancel_queued_while_held"] or stats["handoff_cancel"] or stats["driver_cancel_in_handoff"]
         if stats["max_queue"] >= 2:
             r.classes.append("queue_ge_2")
-        if stats["cancel_queued_while_held"]:
-            r.classes.append("cancel_queued_while_held")
+        for k in (
+            "cancel_queued_while_held",
+            "handoff_cancel",
+            "handoff_cancel_woken",
+            "handoff_cancel_all",
+            "handoff_cancel_woken_next_enters",
+            "leaver_was_cancelled",
+            "driver_cancel_in_handoff",
+            "driver_cancel_all_in_handoff",
+            "midrun_key_idle",
+        ):
+            if stats[k]:
+                r.classes.append(k)
         return r
 
 
